@@ -241,6 +241,12 @@ def start_message(kind):
     if kind == "decoded":
         m = DiameterMessage(DiameterHeader(command_code=280, application_id=7), [fresh("A"), fresh("R"), fresh("U")])
         return DiameterMessage.load(m.dump())[0]
+    if kind == "decoded-empty":
+        # a message that came off the wire with no AVPs at all (the bare 20-byte header)
+        return DiameterMessage.load(DiameterMessage(DiameterHeader(command_code=280, application_id=7)).dump())[0]
+    if kind == "request-class":
+        from bromelia.base import DiameterRequest
+        return DiameterRequest(command_code=316, application_id=16777251, avps=[fresh("S"), fresh("A")])
     if kind == "typed":
         from bromelia.lib.ietf_rfc6733 import DWR
         return DWR(origin_host="a.b", origin_realm="b")
@@ -325,7 +331,7 @@ def dfs(acc, start, maxdepth, budget):
 
 def random_walks(acc, rng, n, maxlen):
     for _ in range(n):
-        start = rng.choice(["generic", "decoded", "typed"])
+        start = rng.choice(["generic", "decoded", "typed", "decoded-empty", "request-class"])
         msg = start_message(start)
         ref = Ref(msg)
         trace = []
@@ -354,7 +360,7 @@ def run_batch(b):
 def main(tier, seed):
     t0 = time.time()
     q = tier == "quick"
-    batches = [{"kind": "dfs", "start": s, "maxdepth": 12, "budget": 12000 if q else 1500000} for s in ("generic", "decoded", "typed")]
+    batches = [{"kind": "dfs", "start": s, "maxdepth": 12, "budget": 12000 if q else 1500000} for s in ("generic", "decoded", "typed", "decoded-empty", "request-class")]
     for i in range(8 if q else 32):
         batches.append({"kind": "random", "n": 400 if q else 6000, "seed": seed * 4093 + i})
     acc = harness.run_workers("checks.c11_container", "run_batch", batches, 1500)
